@@ -49,13 +49,13 @@ VAL_OPS = ["todense", "toarray", "diag_0", "diag_1", "diag_m1", "diag_2", "diag_
 # corner cases of the listed operations; exercised at depth 1 only (they would drown the compositions)
 # (`+=`/`-=` with a scalar 0 or a dense array were tried and removed: DyadCarrier defines its in-place operators for
 #  dyadic operands only, and the property does not ask for more -> demanding them was a false alarm of the check)
-CORNER_OPS = ["set_all", "gi_ll", "mm_Be", "cm_mix", "ct_Mrneg", "ct_Mrcmask", "ct_rcneg"]
+CORNER_OPS = ["set_all", "gi_ll", "mm_Be", "cm_mix", "ct_Mrneg", "ct_Mrcmask", "ct_rcneg", "set_rows_step", "set_cols_step"]
 ALL_OPS = DY_OPS + INP_OPS + VAL_OPS
 GI_DYAD = {"gi_ss", "gi_full", "gi_step", "gi_as", "gi_sa", "gi_ms", "gi_ls", "gi_el", "gi_empty"}
 NO_OPERAND = {"neg", "pos", "copy", "T", "transpose", "conj", "real", "imag", "add_0i", "radd_0i", "add_0f",
               "sub_0i", "rsub_0i", "rsub_0f", "todense", "toarray", "diag_0", "diag_1", "diag_m1", "diag_2",
               "diag_m3", "ct", "ct_brc", "set_row", "set_col", "set_rows", "set_cols_idx", "set_all",
-              "iadd_0", "isub_0", "add_Be", "iadd_Be", "mm_Be", "cm_mix", "ct_rcneg"} | {o for o in ALL_OPS + CORNER_OPS
+              "iadd_0", "isub_0", "add_Be", "iadd_Be", "mm_Be", "cm_mix", "ct_rcneg", "set_rows_step", "set_cols_step"} | {o for o in ALL_OPS + CORNER_OPS
                                                                            if o.startswith("gi_")}
 SAFE_EMPTY = {"todense", "toarray", "copy", "neg", "T", "conj", "diag_0"}     # ops used on 0 x m carriers
 CTORS = ["vec", "vecs", "one", "tup", "lst", "blk", "blk3", "sca", "sym", "add", "shape0"]
@@ -653,8 +653,9 @@ class St:
                 self.gen(f * bu[0])
                 return INP, dc.add_dyad(bu[0], bv[0], fac=f), ref + f * np.outer(np.asarray(bu[0]), np.asarray(bv[0])), bu + bv
             return INP, dc.add_dyad(bu, bv), ref + self.dense(bu, bv, (n, m)), bu + bv
-        if op in ("set_row", "set_col", "set_rows", "set_cols_idx", "set_all"):
+        if op in ("set_row", "set_col", "set_rows", "set_cols_idx", "set_all", "set_rows_step", "set_cols_step"):
             idx = {"set_row": (n - 1, slice(None)), "set_col": (slice(None), m // 2),
+                   "set_rows_step": (slice(None, None, 2), slice(None)), "set_cols_step": (slice(None), slice(None, None, 2)),
                    "set_rows": (slice(0, max(1, n - 1)), slice(None)),
                    "set_cols_idx": (slice(None), np.array([0, m - 1])),
                    "set_all": (slice(None), slice(None))}[op]
